@@ -200,6 +200,8 @@ class C(Check):
         fam = None
         if kind == 'mul' and cls == 'same-value' and _only_numeric_base_sum_exponent_differs(t0['t'], t1['t']):
             fam = 'numeric-base-with-sum-exponent'
+        elif kind == 'mul' and cls == 'same-value' and (_same_exponent_sums(t0['t'], t1['t']) or _compound_power_folding(t0['t'], t1['t'])):
+            fam = 'power-of-power-split-differently'
         self.violation(dict(clause='not-' + what, op=kind, value=cls, family=fam),
                        dict(operands=[gen.recipe_str(o) for o in ops], build0=gen.recipe_str(b0), build1=gen.recipe_str(b1),
                             result0=t0['s'], result1=t1['s'], program=[gen.recipe_str(s) for s in prog], config='asan'))
@@ -223,8 +225,7 @@ def _only_numeric_base_sum_exponent_differs(t0, t1):
             if base[0] in ('Integer', 'Rational', 'Complex'):
                 if ex[0] not in ('Integer', 'Rational') or base[0] == 'Complex':
                     special += 1       # numeric base with a symbolic exponent (sum or not); powers of a complex constant are not merged uniquely either
-                else:
-                    rest.append(json.dumps([base, ex], sort_keys=True))
+                # numeric base with a numeric exponent (sqrt(2), ...): part of the numeric content that the two foldings distribute differently
             else:
                 rest.append(json.dumps([base, ex], sort_keys=True))
         return sorted(rest), special
@@ -232,3 +233,64 @@ def _only_numeric_base_sum_exponent_differs(t0, t1):
     if a is None or b is None:
         return False
     return a[0] == b[0] and (a[1] + b[1]) > 0
+
+
+def _same_exponent_sums(t0, t1):
+    """both results are products of rational powers in which every base b (looking through (b**n)**q with integer n) carries the same total
+    exponent, only split differently: (x**2)**(11/6) vs x**2*(x**2)**(5/6)"""
+    import json
+    from fractions import Fraction
+
+    def q(t):
+        if t[0] == 'Integer':
+            return Fraction(int(t[1]))
+        if t[0] == 'Rational':
+            return Fraction(int(t[1]), int(t[2]))
+        return None
+
+    def sums(t):
+        if t[0] == 'Pow':
+            terms = [['T', t[1], t[2]]]
+            coef = ['Integer', '1']
+        elif t[0] == 'Mul':
+            terms = t[2:]
+            coef = t[1]
+        else:
+            return None
+        out = {}
+        for term in terms:
+            base, ex = term[1], q(term[2])
+            if ex is None:
+                return None
+            if base[0] == 'Pow' and base[2][0] == 'Integer':
+                ex = ex * int(base[2][1])
+                base = base[1]
+            k = json.dumps(base, sort_keys=True)
+            out[k] = out.get(k, Fraction(0)) + ex
+        return json.dumps(coef), out
+    a, b = sums(t0), sums(t1)
+    return a is not None and b is not None and a == b and t0 != t1
+
+
+def _compound_power_folding(t0, t1):
+    """both results are products over the same atoms and at least one of them still carries a non-integer power of a compound base
+    ((x*y)**(11/4), (x**2)**q): the folding of such powers into the product depends on the order of multiplication"""
+    import json
+
+    def atoms(t, acc):
+        if not isinstance(t, list) or not t:
+            return
+        if t[0] in ('Symbol', 'Constant') or (t[0] not in ('Mul', 'Pow', 'Add', 'T', 'Integer', 'Rational', 'Complex') and isinstance(t[0], str) and t[0][:1].isupper()):
+            acc.add(json.dumps(t, sort_keys=True))
+            return
+        for a in t[1:]:
+            if isinstance(a, list):
+                atoms(a, acc)
+
+    def compound(t):
+        terms = [['T', t[1], t[2]]] if t[0] == 'Pow' else (t[2:] if t[0] == 'Mul' else [])
+        return any(term[1][0] in ('Mul', 'Pow') and term[2][0] != 'Integer' for term in terms)
+    a0, a1 = set(), set()
+    atoms(t0, a0)
+    atoms(t1, a1)
+    return a0 == a1 and (compound(t0) or compound(t1))
